@@ -152,23 +152,26 @@ PROPS = {
         "suites": [{"name": "spatial", "quick": 6000, "thorough": 300000}],
         "level_text": "Lean theorems about the model of SpatialData::spatialize and the glam kernels it calls (Vec3 scalar, Quat SSE2), "
                       "over the reals for ALL positions/orientations/parameters: level = attenuation x ear gain; attenuation depends "
-                      "only on the Euclidean distance, is 1 within min, 0 at/after max, antitone and in [0,1] for every built-in easing; "
+                      "only on the Euclidean distance, is 1 within min, 0 at/after max, antitone and in [0,1] for every built-in easing "
+                      "and EVERY pair of distances (max <= min: a step at min — 1 closer than min, 0 from min on); "
                       "each ear gain in [1-s,1] (Cauchy-Schwarz); mirror through the median plane swaps the ear gains; a rotation by a unit "
                       "quaternion plus a translation of listener and emitter changes nothing; strength 0 passes the stereo signal unpanned; "
                       "missing/dropped listener => zero frames; FromListenerDistance parameters equal Mapping.map(distance); defined "
-                      "(no zero divisor) for coincident points when min<max and the orientations are non-zero, and the orientation used is a "
+                      "(no zero divisor) for EVERY position (coincident points included), pair of distances and previous/current "
+                      "orientation (the zero quaternion counts as the identity), and the orientation used is always a "
                       "unit quaternion. The same definitions run as a Float twin and agree BIT-FOR-BIT with kira rendered through the public "
                       "manager API (listener/emitter tweens incl. glam's slerp, listener add/drop, nested spatial/non-spatial tracks, "
-                      "distance-mapped volumes, Info::listener_distance seen by an effect)",
+                      "distance-mapped volumes, Info::listener_distance seen by an effect; finiteness of the main bus BEFORE the "
+                      "renderer's NaN scrub is observed by an effect on the main track and compared with the model's 'no zero divisor')",
         "level_note": "favours-the-near-ear is proved for every emitter outside the head (distance >= EAR_DISTANCE = 0.1, "
                       "C15_favours_near_ear_outside_head); without that hypothesis it is FALSE (inside the head the far ear can be "
                       "louder: witness theorem + replay = known finding). Theorems are over ideal real arithmetic (rounding only in the twin); "
                       "glam's slerp approximations (acos/sin polynomials) are mirrored op-for-op in the twin but no theorem is stated about "
                       "them (the theorems quantify over every orientation); tie to the code = differential correspondence, no tolerance needed",
         "assumptions": [
-            "min_distance < max_distance (min > max panics, min == max gives NaN: known findings)",
-            "listener orientation quaternions are not the zero quaternion (zero gives NaN: known finding); any non-zero quaternion is "
-            "normalised by kira before use",
+            "the interpolation amount of the listener pose is a time within the chunk (0 <= t <= 1), as Track::process supplies it",
+            "an orientation quaternion whose squared length is not a normal f32 (zero, < 2^-126, overflowing) counts as the identity; "
+            "any other quaternion is normalised by kira before use",
             "easing powers > 0 for the monotonicity/endpoint claims",
             "finite coordinates of moderate size (|x| <= 1e4 in the generator): f32 overflow of squared lengths is outside the theorems",
         ],
